@@ -3,7 +3,8 @@
 
    Vocabulary (coq/C15/Theory.v, Theory2.v):
      access_of J b      the access flags the jar gives the method reference b
-     invoked J b r      the body of b invokes the object-class method r
+     invoked J b r      the body of b invokes the object-class method r (C15_invoked_insn: some instruction of the body
+                        is an invokevirtual / invokespecial / invokestatic / invokeinterface carrying r, r's owner no array)
      parent / ancestor  super class other than java/lang/Object or interface; transitive closure
      compatP J tb ts    bridge-compatible types: equal, or both object types and the bridge's is
                         java/lang/Object, or not a class of the jar, or some ancestor of the
@@ -12,20 +13,20 @@
                         position-wise compatible parameters, compatible return (void with void)
      is_bridge_pair     synthetic /\ calls = {s} /\ (bridge flag \/ potentialP)
      class_frame        a class of the result against the class it came from (see below)
-   Hypothesis `get_specialized J = Ok _`: the hierarchy work-lists did not exhaust their fuel
-   (the Rust loops have no visited set and do not terminate on a cyclic hierarchy);
-   section 5 below (fuel_suffices) discharges it for every acyclic hierarchy: the model's fuel IS the
-   number of steps the terminating Rust loops take.
+   Hypothesis `get_specialized J = Ok _`: the hierarchy work-lists did not exhaust their fuel; section 5 below
+   (C15_get_specialized_total) discharges it for EVERY jar — since "fix: the hierarchy walks of the bridge detection
+   visit every class once" the loops carry a visited set and end on any hierarchy, cyclic ones included.
      cal_ref J cal libs m   the method reference m of the jar (official names) in intermediary names
                             (SpecializedMethods::remap with the calamus remapper, inheritance through the jars)
      named_ref J cal libs M b'   the name the mappings M give, through inheritance, to the intermediary reference b'
      last_remap f l b'      the f-image of the delegate of the LAST pair of l whose bridge f maps to b'
-     depth_ok d G c     every chain of edges of the table G starting at c has at most d edges
-     cost d G c         the number of paths of G that start at c (the empty path included)
-     hier_ok d J        depth_ok d holds for every class of both hierarchy tables of the jar
-     fuel_bound d J     the largest cost of a class in the two tables
-     ranked J rk D      rk decreases along every super-type edge and is below D on the jar's classes *)
+     steps stack out r  length stack + (length r - length out): the pops of a work-list run that ends with r
+     jar_edges J        the number of super-type edges of the jar (super class other than java/lang/Object, interfaces)
+     walk_nv            the work-list BEFORE the fix (no visited set), kept as the record of the defect
+     cost d G c         the number of paths of G that start at c (the empty path included), to depth d
+     depth_ok d G c     every chain of edges of the table G starting at c has at most d edges *)
 From FB Require Import C15.Model C15.Theory C15.Theory2 C15.Theory3.
+From Coq Require Import Relations.Relation_Operators.
 
 (* 1. bridge_iff: the pairs collected by Jar::get_specialized_methods are exactly the bridge pairs *)
 Theorem C15_bridge_iff : forall J b2s s2b,
@@ -37,6 +38,33 @@ Theorem C15_bridge_iff : forall J b2s s2b,
               (a_bridge a = true \/ potentialP J b a s).
 Proof. exact bridge_iff. Qed.
 Print Assumptions C15_bridge_iff.
+
+(* "invokes exactly one distinct method", over the instruction list of the body: an instruction counts iff it is one
+   of the four method invocations (any kind, any interface flag) — invokedynamic and every other instruction do not —
+   and the owner of its method reference is not an array class *)
+Theorem C15_invoked_insn : forall J b r, invoked J b r <->
+  exists m c i, In (b, m) (jar_methods J) /\ jm_code m = Some c /\ In i c /\ invoke_target i = Some r /\ is_obj_ref r = true.
+Proof. exact invoked_insn. Qed.
+Print Assumptions C15_invoked_insn.
+
+Theorem C15_invoke_target_cases : forall i r, invoke_target i = Some r <->
+  i = IVirtual r \/ (exists itf, i = ISpecial r itf) \/ (exists itf, i = IStatic r itf) \/ i = IInterface r.
+Proof. exact invoke_target_cases. Qed.
+Print Assumptions C15_invoke_target_cases.
+
+(* and "exactly one": for a method that occurs once in the jar, the distinct (owner, name, descriptor) triples of its
+   invocations (array owners dropped) are the one-element list [s] — one method through several instructions or invoke
+   kinds counts once; the same name and descriptor on two owners are two methods *)
+Theorem C15_one_callee_count : forall J b m c s,
+  (forall m', In (b, m') (jar_methods J) -> m' = m) -> In (b, m) (jar_methods J) -> jm_code m = Some c ->
+  ((forall r, invoked J b r <-> r = s) <-> distinct_callees c = [s]).
+Proof. exact one_callee_count. Qed.
+Print Assumptions C15_one_callee_count.
+
+Theorem C15_distinct_callees_spec : forall c, NoDup (distinct_callees c) /\
+  forall r, In r (distinct_callees c) <-> (exists i, In i c /\ invoke_target i = Some r) /\ is_obj_ref r = true.
+Proof. exact distinct_callees_spec. Qed.
+Print Assumptions C15_distinct_callees_spec.
 
 (* the declarative predicates are what the code computes: the work-list yields the transitive
    closure of the parent relation, and the type test is compatP *)
@@ -271,53 +299,51 @@ Theorem C15_walk_fuel_mono : forall G f stack out r k,
 Proof. exact walk_mono. Qed.
 Print Assumptions C15_walk_fuel_mono.
 
-(* 5. fuel_suffices.  get_ancestors / get_descendants are stacks without a visited set: a class reached
-   along two inheritance paths is expanded twice, so a run started at c pops once per PATH of the
-   hierarchy that starts at c — [cost] — not once per reachable class.  On a table whose chains are
-   bounded the run answers (does not exhaust its fuel) exactly when the fuel is at least the sum of
-   the costs of the classes on its stack. *)
-Theorem C15_walk_exact : forall G d fuel stack out,
-  (forall c, In c stack -> depth_ok d G c = true) ->
-  ((exists r, walk fuel G stack out = Ok r) <-> (total d G stack <= fuel)%nat).
+(* 5. fuel_suffices.  get_ancestors / get_descendants are stacks whose output set is the visited set: a class is
+   listed, pushed and popped once.  A run that ends with r answers with EXACTLY steps = (classes on the stack) +
+   (classes it still lists) units of fuel, and with no less. *)
+Theorem C15_walk_exact : forall G fuel stack out r, walk fuel G stack out = Ok r ->
+  forall f', walk f' G stack out = if Nat.leb (steps stack out r) f' then Ok r else Err.
 Proof. exact walk_exact. Qed.
 Print Assumptions C15_walk_exact.
 
-(* [cost] and [depth_ok] do not depend on the depth bound once it is large enough *)
-Theorem C15_depth_irrelevant : forall G d D c, (d <= D)%nat -> depth_ok d G c = true ->
-  depth_ok D G c = true /\ cost D G c = cost d G c.
-Proof. exact depth_le. Qed.
-Print Assumptions C15_depth_irrelevant.
+(* started at one class: no class is listed twice, and the pops are one more than the classes listed *)
+Theorem C15_walk_steps : forall G fuel c r, walk fuel G [c] [] = Ok r ->
+  NoDup r /\ forall f', walk f' G [c] [] = if Nat.leb (S (length r)) f' then Ok r else Err.
+Proof. exact walk_steps. Qed.
+Print Assumptions C15_walk_steps.
+
+(* every table, cyclic or not: one more than the number of its entries is enough *)
+Theorem C15_walk_total : forall G fuel c, (walk_fuel G <= fuel)%nat -> exists r, walk fuel G [c] [] = Ok r.
+Proof. exact walk_total. Qed.
+Print Assumptions C15_walk_total.
 
 (* Jar::get_specialized_methods with the fuel as a parameter; the model uses jar_fuel J *)
 Theorem C15_get_specialized_fuel : forall J, get_specialized J = get_specialized_f (jar_fuel J) J.
 Proof. exact get_specialized_is_f. Qed.
 Print Assumptions C15_get_specialized_fuel.
 
-(* the model's fuel (Model.jar_fuel: paths counted to a depth of the number of rows of each table) is the
-   bound of walk_exact, whatever depth d shows the hierarchy acyclic (pigeonhole: on a table whose chains
-   are bounded at all, no chain is longer than the number of rows) *)
-Theorem C15_depth_rows : forall G d, (forall c, depth_ok d G c = true) -> forall c, depth_ok (length G) G c = true.
-Proof. exact depth_rows. Qed.
-Print Assumptions C15_depth_rows.
+(* the hypothesis of sections 1-3 holds for every jar: no condition on the hierarchy, none on the fuel *)
+Theorem C15_get_specialized_total : forall J, exists b2s s2b, get_specialized J = Ok (b2s, s2b).
+Proof. exact get_specialized_total. Qed.
+Print Assumptions C15_get_specialized_total.
 
-Theorem C15_jar_fuel_exact : forall J d, hier_ok d J = true -> jar_fuel J = fuel_bound d J.
-Proof. exact jar_fuel_exact. Qed.
-Print Assumptions C15_jar_fuel_exact.
+(* so the first sentence of the property holds of every jar, with no hypothesis at all *)
+Theorem C15_bridge_iff_total : forall J, exists b2s s2b, get_specialized J = Ok (b2s, s2b) /\
+  forall b s, In (b, s) b2s <->
+    exists a, access_of J b = Some a /\
+              a_synthetic a = true /\
+              (forall r, invoked J b r <-> r = s) /\
+              (a_bridge a = true \/ potentialP J b a s).
+Proof. exact bridge_iff_total. Qed.
+Print Assumptions C15_bridge_iff_total.
 
-(* acyclic hierarchy (chains of at most d edges for some d; decidable): the model does not answer Err —
-   no condition on the fuel is left *)
-Theorem C15_fuel_suffices : forall J d, hier_ok d J = true -> get_specialized J <> Err.
+Theorem C15_fuel_suffices : forall J, get_specialized J <> Err.
 Proof. exact fuel_suffices. Qed.
 Print Assumptions C15_fuel_suffices.
 
-(* and the fuel is not generous: with one unit less some work-list of the jar, started at one class, fails *)
-Theorem C15_fuel_sharp : forall J d f, hier_ok d J = true -> (f < jar_fuel J)%nat ->
-  exists c, walk f (ix_parents J) [c] [] = Err \/ walk f (ix_children J) [c] [] = Err.
-Proof. exact fuel_sharp. Qed.
-Print Assumptions C15_fuel_sharp.
-
-Theorem C15_fuel_irrelevant : forall J d f1 f2,
-  hier_ok d J = true -> (fuel_bound d J <= f1)%nat -> (fuel_bound d J <= f2)%nat ->
+Theorem C15_fuel_irrelevant : forall J f1 f2,
+  (jar_fuel J <= f1)%nat -> (jar_fuel J <= f2)%nat ->
   exists r, get_specialized_f f1 J = Ok r /\ get_specialized_f f2 J = Ok r.
 Proof. exact fuel_irrelevant. Qed.
 Print Assumptions C15_fuel_irrelevant.
@@ -327,27 +353,42 @@ Theorem C15_get_specialized_fuel_mono : forall f k J r,
 Proof. exact get_specialized_mono. Qed.
 Print Assumptions C15_get_specialized_fuel_mono.
 
-(* acyclicity in the formulation of C06: a rank that decreases along every super-type edge *)
-Theorem C15_ranked_hier_ok : forall J rk D, ranked J rk D = true -> hier_ok (S D) J = true.
-Proof. exact ranked_hier_ok. Qed.
-Print Assumptions C15_ranked_hier_ok.
+(* the work is linear in the jar: no work-list pops more often than the jar has super-type edges, plus one *)
+Theorem C15_jar_fuel_linear : forall J, (jar_fuel J <= S (jar_edges J))%nat.
+Proof. exact jar_fuel_linear. Qed.
+Print Assumptions C15_jar_fuel_linear.
 
-Theorem C15_fuel_suffices_ranked : forall J rk D, ranked J rk D = true -> get_specialized J <> Err.
-Proof. exact fuel_suffices_ranked. Qed.
-Print Assumptions C15_fuel_suffices_ranked.
+(* 6. the loops before the fix (walk_nv: every entry of a row is pushed, no visited set) — the defect, stated.
+   On a table whose chains are bounded a run answered exactly when the fuel was at least the number of PATHS from
+   the classes on its stack (exponential on stacked diamonds, see C15_fuel_examples) ... *)
+Theorem C15_old_walk_exact : forall G d fuel stack out,
+  (forall c, In c stack -> depth_ok d G c = true) ->
+  ((exists r, walk_nv fuel G stack out = Ok r) <-> (total d G stack <= fuel)%nat).
+Proof. exact walk_nv_exact. Qed.
+Print Assumptions C15_old_walk_exact.
 
-(* a bound on the work: at most b direct super types and at most b direct subtypes per class, chains of
-   at most d edges: no work-list of the jar takes more than 1 + b + ... + b^d steps *)
-Theorem C15_fuel_degree_bound : forall J b d,
-  hier_ok d J = true -> degree_le b (ix_parents J) = true -> degree_le b (ix_children J) = true ->
-  (jar_fuel J <= geo b d)%nat.
-Proof. exact fuel_degree_bound. Qed.
-Print Assumptions C15_fuel_degree_bound.
+(* ... with a class on a cycle on its stack it had no answer for any fuel (the Rust loop did not end and grew its
+   output until memory ran out) ... *)
+Theorem C15_old_walk_diverges : forall R G, graph_inv R G -> forall fuel stack out,
+  (exists x, In x stack /\ clos_trans_1n str R x x) -> walk_nv fuel G stack out = Err.
+Proof. exact walk_nv_diverges. Qed.
+Print Assumptions C15_old_walk_diverges.
 
-(* non-vacuity and sharpness: a diamond hierarchy is inside the hypotheses (5 paths from 4 classes,
-   the doubly reached class is listed twice; jar_fuel = 5, 4 units of fuel are not enough); the step
-   count is not polynomial in the size of the tables: an acyclic tower of nine diamonds (28 classes,
-   36 edges) takes 2045 steps (= its jar_fuel), a quadratic fuel of 1444 fails *)
+(* ... and where it did answer, it listed the classes the repaired loop lists: the fix changed no existing answer *)
+Theorem C15_visited_set_conservative : forall R G, graph_inv R G -> forall f1 f2 c r1 r2,
+  walk_nv f1 G [c] [] = Ok r1 -> walk f2 G [c] [] = Ok r2 -> forall x, In x r1 <-> In x r2.
+Proof. exact visited_set_conservative. Qed.
+Print Assumptions C15_visited_set_conservative.
+
+(* the hierarchy tables satisfy graph_inv for the parent relation (and its converse) *)
+Theorem C15_tables_spec : forall J, graph_inv (parent J) (ix_parents J) /\ graph_inv (fun p c => parent J c p) (ix_children J).
+Proof. exact (fun J => conj (ix_parents_spec J) (ix_children_spec J)). Qed.
+Print Assumptions C15_tables_spec.
+
+(* non-vacuity, before and after: a diamond (old: 5 pops, A listed twice; now 4 pops), a tower of nine diamonds
+   (old: 2045 pops for 28 classes, a quadratic fuel fails; now 28), a tower of forty (2^42 paths: unwalkable before),
+   cyclic inheritance A <-> B (old: no answer for any fuel; now [B; A] in 3 pops, B is an ancestor of A and the
+   unflagged synthetic g(LB;)V is found as bridge of m(LA;)V) *)
 Theorem C15_fuel_examples : fuel_examples.
 Proof. exact fuel_examples_hold. Qed.
 Print Assumptions C15_fuel_examples.
